@@ -24,6 +24,8 @@ type memNode struct {
 	frame  func(name, newV, oldV string) // havoc: emits frame assumptions for a havocked name
 	preds  []mergeEdge       // merge
 	cache  map[string]string // resolved versions
+	pc     string            // path condition under which the node was created (frames are resolved lazily)
+	inBlk  bool              // created while a block was being executed
 }
 
 type mergeEdge struct {
@@ -33,7 +35,7 @@ type mergeEdge struct {
 
 func (x *fx) newMem(kind string, parent *memNode) *memNode {
 	x.nmem++
-	return &memNode{id: x.nmem, kind: kind, parent: parent, cache: map[string]string{}}
+	return &memNode{id: x.nmem, kind: kind, parent: parent, cache: map[string]string{}, pc: x.curPC, inBlk: x.curBlock != nil}
 }
 
 // memName returns the memory array name holding objects of type t (non-struct).
@@ -140,7 +142,12 @@ func (x *fx) resolve(m *memNode, name string) string {
 			old := x.resolve(m.parent, name)
 			v = x.declMemVersion(name, m.tag)
 			if m.frame != nil {
+				// the frame facts hold under the path condition of the havoc itself,
+				// not of whichever later block happens to resolve this memory first
+				save, saveOn := x.pcOverride, x.pcOverrideOn
+				x.pcOverride, x.pcOverrideOn = m.pc, m.inBlk
 				m.frame(name, v, old)
+				x.pcOverride, x.pcOverrideOn = save, saveOn
 			}
 		} else {
 			v = x.resolve(m.parent, name)
